@@ -474,3 +474,128 @@ package pubsub
 //@   property C17 C13
 //@   noframe
 //@   ensures reset: len(gs.peerhave) == 0 && len(gs.iasked) == 0
+
+// ---- heartbeat (mesh maintenance) ----
+//
+// The three local helpers of heartbeat are verified as functions of their captured variables
+// and used through these contracts at their call sites.
+
+// score: memoised read of the peer's score; an entry once cached never changes in this heartbeat.
+//@ func (*GossipSubRouter).heartbeat$2
+//@   property C07 C09
+//@   requires memo: scores != nil
+//@   noframe
+//@   preserves memo: forall q string :: old(q in scores) ==> q in scores && scores[q] == old(scores[q])
+//@   ensures cached: p in scores && result == scores[p]
+//@   ensures only: forall q string :: q != p ==> (q in scores) == old(q in scores)
+//@   ensures first-read: !old(p in scores) ==> result == score(gs, p)
+
+// prunePeer: exactly p leaves this topic's mesh, is backed off for at least the prune backoff and
+// is queued for a PRUNE; no other mesh, backoff entry or peer set changes.
+//@ func (*GossipSubRouter).heartbeat$3
+//@   property C07 C08
+//@   requires state: sepBackoff(gs) && validBackoffParams(gs) && peers != nil && toprune != nil && peers != gs.direct
+//@   noframe
+//@   ensures removed: !(p in peers) && (forall q string :: q != p ==> (q in peers) == old(q in peers))
+//@   ensures other-sets: forall m map[peer.ID]struct{}, q string :: m != peers ==> (q in m) == old(q in m)
+//@   ensures backed-off: has(gs.backoff, topic, p) && gs.backoff[topic][p] >= now + gs.params.PruneBackoff && sepBackoff(gs)
+//@   ensures other-backoffs: forall t string, q string :: t != topic || q != p ==> has(gs.backoff, t, q) == old(has(gs.backoff, t, q)) && gs.backoff[t][q] == old(gs.backoff[t][q])
+//@   ensures queued: p in toprune && len(toprune[p]) == old(len(toprune[p])) + 1 && toprune[p][len(toprune[p]) - 1] == topic
+//@   ensures others-queued: forall q string :: q != p ==> (q in toprune) == old(q in toprune) && len(toprune[q]) == old(len(toprune[q]))
+
+// graftPeer: the precondition IS the admission rule of mesh maintenance (C07/C08/C09): the peer
+// is not yet a member, not a direct peer, has no backoff entry for the topic NOW, and its score
+// as read in this heartbeat is non-negative. Every call site in heartbeat must establish it.
+//@ func (*GossipSubRouter).heartbeat$4
+//@   property C07 C08 C09
+//@   requires eligible: !(p in gs.direct) && !has(gs.backoff, topic, p)
+//@   requires state: peers != nil && tograft != nil && peers != gs.direct
+//@   noframe
+//@   ensures added: p in peers && (forall q string :: q != p ==> (q in peers) == old(q in peers))
+//@   ensures other-sets: forall m map[peer.ID]struct{}, q string :: m != peers ==> (q in m) == old(q in m)
+//@   ensures queued: p in tograft && len(tograft[p]) == old(len(tograft[p])) + 1 && tograft[p][len(tograft[p]) - 1] == topic
+//@   ensures others-queued: forall q string :: q != p ==> (q in tograft) == old(q in tograft) && len(tograft[q]) == old(len(tograft[q]))
+
+//@ func peerMapToList
+//@   property C07
+//@   modifies nothing
+//@   loop 1 invariant keys: (forall i int :: 0 <= i && i < len(plst) ==> $visited[plst[i]] && plst[i] in peers) && len(plst) == $count &&
+//@        (forall q string :: $visited[q] ==> (exists i int :: 0 <= i && i < len(plst) && plst[i] == q)) && (cap(plst) == 0 || fresh(arr(plst)))
+//@   ensures keys: forall i int :: 0 <= i && i < len(result) ==> result[i] in peers
+//@   ensures all: forall q string :: q in peers ==> (exists i int :: 0 <= i && i < len(result) && result[i] == q)
+//@   ensures size: len(result) == len(peers)
+//@   ensures own: cap(result) == 0 || fresh(arr(result))
+
+// hbSel: what the candidate filter establishes at selection time; hbElig: the part that must still
+// hold when the GRAFT is decided (membership is excluded: earlier grafts of the same pass change it)
+//@ spec fn hbElig(gs *GossipSubRouter, topic string, scores map[peer.ID]float64, q string) bool =
+//@      !(q in gs.direct) && !has(gs.backoff, topic, q) && q in scores && scores[q] >= 0.0
+//@ spec fn hbSel(gs *GossipSubRouter, topic string, peers map[peer.ID]struct{}, scores map[peer.ID]float64, q string) bool =
+//@      !(q in peers) && hbElig(gs, topic, scores, q)
+// what every loop of the mesh pass keeps
+//@ spec fn hbStable(gs *GossipSubRouter) bool = sepMesh(gs) && sepBackoff(gs) && validBackoffParams(gs) && gs.direct != nil &&
+//@      gs.mesh == old(gs.mesh) && (forall t string :: (t in gs.mesh) == old(t in gs.mesh) && gs.mesh[t] == old(gs.mesh[t])) &&
+//@      gs.direct == old(gs.direct) && (forall q string :: (q in gs.direct) == old(q in gs.direct)) && gs.score == old(gs.score) && gs.params == old(gs.params)
+//@ spec fn hbMaps(scores map[peer.ID]float64, tograft map[peer.ID][]string, toprune map[peer.ID][]string, noPX map[peer.ID]bool) bool =
+//@      scores != nil && tograft != nil && toprune != nil && noPX != nil
+//@ spec fn nonNegMembers(peers map[peer.ID]struct{}, scores map[peer.ID]float64) bool = forall q string :: q in peers ==> q in scores && scores[q] >= 0.0
+//@ spec fn bkLink(gs *GossipSubRouter, topic string, backoff map[peer.ID]time.Time) bool =
+//@      (topic in gs.backoff ==> backoff == gs.backoff[topic]) && (!(topic in gs.backoff) ==> backoff == nil)
+
+// heartbeat, mesh pass: every GRAFT decided here goes to an eligible peer (graftPeer's
+// precondition plus the score condition asserted at each call), every negative-score member is
+// pruned without peer exchange, every pruned peer is backed off (prunePeer's contract).
+//@ func (*GossipSubRouter).heartbeat
+//@   property C07 C08 C09
+//@   requires state: sepMesh(gs) && sepBackoff(gs) && sepFanout(gs) && validBackoffParams(gs) && gs.direct != nil
+//@   requires history: gs.mcache != nil && mcRep(gs.mcache)
+//@   noframe
+//@   loop 1 invariant stable: hbStable(gs) && hbMaps(scores, tograft, toprune, noPX)
+//@   loop 1 invariant history: gs.mcache == old(gs.mcache) && mcRep(gs.mcache)
+//@   loop 11 invariant history: gs.mcache == old(gs.mcache) && mcRep(gs.mcache)
+//@   loop 12 invariant history: gs.mcache == old(gs.mcache) && mcRep(gs.mcache)
+//@   loop 2 invariant stable: hbStable(gs) && hbMaps(scores, tograft, toprune, noPX) && topic in gs.mesh && peers == gs.mesh[topic]
+//@   loop 2 invariant negatives-dropped: forall q string :: $visited[q] && q in peers ==> q in scores && scores[q] >= 0.0
+//@   loop 2 invariant no-new: forall q string :: q in peers ==> $start[q]
+//@   loop 2 invariant nopx: forall q string :: $start[q] && !(q in peers) ==> q in noPX && noPX[q] && has(gs.backoff, topic, q)
+//@   loop getPeers#1.1 cut
+//@   loop getPeers#1.1 invariant stable: hbStable(gs) && hbMaps(scores, tograft, toprune, noPX) && topic in gs.mesh && $up_peers == gs.mesh[topic] && nonNegMembers(gs.mesh[topic], scores) && bkLink(gs, topic, backoff)
+//@   loop getPeers#1.1 invariant cands: (forall i int :: 0 <= i && i < len(peers) ==> hbSel(gs, topic, gs.mesh[topic], scores, peers[i]))
+//@   loop 3 invariant stable: hbStable(gs) && hbMaps(scores, tograft, toprune, noPX) && topic in gs.mesh && peers == gs.mesh[topic] && nonNegMembers(peers, scores)
+//@   loop 3 invariant cands: (forall i int :: rangeindex < i && i < len(plst) ==> hbElig(gs, topic, scores, plst[i])) && rangeindex >= -1
+//@   loop 4 invariant stable: hbStable(gs) && hbMaps(scores, tograft, toprune, noPX) && topic in gs.mesh && peers == gs.mesh[topic] && nonNegMembers(peers, scores)
+//@   loop 5 invariant stable: hbStable(gs) && hbMaps(scores, tograft, toprune, noPX) && topic in gs.mesh && peers == gs.mesh[topic] && nonNegMembers(peers, scores)
+//@   loop 6 invariant stable: hbStable(gs) && hbMaps(scores, tograft, toprune, noPX) && topic in gs.mesh && peers == gs.mesh[topic] && nonNegMembers(peers, scores)
+//@   loop 7 invariant stable: hbStable(gs) && hbMaps(scores, tograft, toprune, noPX) && topic in gs.mesh && peers == gs.mesh[topic] && nonNegMembers(peers, scores)
+//@   loop 8 invariant stable: hbStable(gs) && hbMaps(scores, tograft, toprune, noPX) && topic in gs.mesh && peers == gs.mesh[topic] && nonNegMembers(peers, scores)
+//@   loop getPeers#2.1 cut
+//@   loop getPeers#2.1 invariant stable: hbStable(gs) && hbMaps(scores, tograft, toprune, noPX) && topic in gs.mesh && $up_peers == gs.mesh[topic] && nonNegMembers(gs.mesh[topic], scores) && bkLink(gs, topic, backoff)
+//@   loop getPeers#2.1 invariant cands: (forall i int :: 0 <= i && i < len(peers) ==> hbSel(gs, topic, gs.mesh[topic], scores, peers[i]))
+//@   loop 9 invariant stable: hbStable(gs) && hbMaps(scores, tograft, toprune, noPX) && topic in gs.mesh && peers == gs.mesh[topic] && nonNegMembers(peers, scores)
+//@   loop 9 invariant cands: (forall i int :: rangeindex < i && i < len(plst) ==> hbElig(gs, topic, scores, plst[i])) && rangeindex >= -1
+//@   loop getPeers#3.1 cut
+//@   loop getPeers#3.1 invariant stable: hbStable(gs) && hbMaps(scores, tograft, toprune, noPX) && topic in gs.mesh && $up_peers == gs.mesh[topic] && nonNegMembers(gs.mesh[topic], scores) && bkLink(gs, topic, backoff) && medianScore >= 0.0
+//@   loop getPeers#3.1 invariant cands: (forall i int :: 0 <= i && i < len(peers) ==> hbSel(gs, topic, gs.mesh[topic], scores, peers[i]))
+//@   loop 10 invariant stable: hbStable(gs) && hbMaps(scores, tograft, toprune, noPX) && topic in gs.mesh && peers == gs.mesh[topic] && nonNegMembers(peers, scores)
+//@   loop 10 invariant cands: (forall i int :: rangeindex < i && i < len(plst) ==> hbElig(gs, topic, scores, plst[i])) && rangeindex >= -1
+//@   loop 11 invariant fan: sepFanout(gs) && gs.direct != nil && scores != nil && gs.fanout == old(gs.fanout)
+//@   loop 12 invariant fan: sepFanout(gs) && gs.direct != nil && scores != nil && gs.fanout == old(gs.fanout)
+//@   loop 13 invariant fan: sepFanout(gs) && gs.direct != nil && scores != nil && gs.fanout == old(gs.fanout) && topic in gs.fanout && peers == gs.fanout[topic]
+//@   loop 13 invariant below-threshold-dropped: forall q string :: $visited[q] && q in peers ==> q in scores && scores[q] >= gs.publishThreshold && has(gs.p.topics, topic, q)
+//@   loop 13 invariant no-new: forall q string :: q in peers ==> iter(q in peers)
+//@   loop getPeers#4.1 cut
+//@   loop getPeers#4.1 invariant fan: sepFanout(gs) && gs.direct != nil && scores != nil && topic in gs.fanout && $up_peers == gs.fanout[topic] &&
+//@        (forall q string :: q in gs.fanout[topic] ==> q in scores && scores[q] >= gs.publishThreshold)
+//@   loop getPeers#4.1 invariant cands: forall i int :: 0 <= i && i < len(peers) ==> !(peers[i] in gs.fanout[topic]) && !(peers[i] in gs.direct) &&
+//@        peers[i] in scores && scores[peers[i]] >= gs.publishThreshold
+//@   loop 14 invariant fan: sepFanout(gs) && gs.direct != nil && scores != nil && gs.fanout == old(gs.fanout) && topic in gs.fanout && peers == gs.fanout[topic] &&
+//@        (forall q string :: q in peers ==> q in scores && scores[q] >= gs.publishThreshold)
+//@   loop 14 invariant additions-not-direct: forall q string :: q in peers && !iter(q in peers) ==> !(q in gs.direct)
+//@   loop 14 invariant cands: (forall i int :: rangeindex < i && i < len(plst) ==> !(plst[i] in gs.direct) && plst[i] in scores && scores[plst[i]] >= gs.publishThreshold) && rangeindex >= -1
+//@   loop 12 step fanout-additions-not-direct: forall q string :: !iter(q in peers) && q in peers ==> !(q in gs.direct)
+//@   loop 12 step fanout-above-publish-threshold: forall q string :: q in peers ==> q in scores && scores[q] >= gs.publishThreshold
+//@   at call shufflePeers#1 forget
+//@   at call shufflePeers#2 forget
+//@   at call sort.Slice#1 forget
+//@   at call peerMapToList forget all
+//@   at call heartbeat$4 assert score-ok: $arg0 in scores && scores[$arg0] >= 0.0
